@@ -484,7 +484,9 @@ class _SpecialGammaEnergy(LikelihoodEnergyOperator):
 
     def get_transformation(self):
         sc = 1. if self._cplx else np.sqrt(0.5)
-        return self._dt, Operator.identity_operator(self._domain).log().scale(sc)
+        # the transformed quantity (log of the real inverse covariance) is real, also for a
+        # complex residual: samples of the metric have to be real (as for the unspecialised energy)
+        return np.float64, Operator.identity_operator(self._domain).log().scale(sc)
 
 
 class GaussianEnergy(LikelihoodEnergyOperator):
